@@ -4522,3 +4522,8 @@ mod test {
         }
     }
 }
+
+// Verification hook (add-only, compiled only by `cargo kani`): contract harnesses live in /verif.
+#[cfg(kani)]
+#[path = "/verif/kani/harness/layout.rs"]
+mod verif_kani;
